@@ -343,7 +343,10 @@ KF32(impl, st, c, x) ==
                 RECURSIVE Each(_, _)
                 Each(s, todo) == IF todo = {} THEN s
                                  ELSE LET n == CHOOSE y \in todo : TRUE IN Each(RemoveTree(s, r.id, n, 8).st, todo \ {n}) IN
-            IF r.err = "ok" /\ IsDir(st, r.id)
+            \* (the view's directory is already gone: nothing to empty, the same answer)
+            IF r.err = "ok" /\ r.id = 0
+            THEN {[res |-> [R0 EXCEPT !.err = "EINVAL"], st |-> st, kf |-> "KF32", inv |-> "ok", skip |-> FALSE, cons |-> <<>>, x |-> x]}
+            ELSE IF r.err = "ok" /\ IsDir(st, r.id)
             THEN {[res |-> [R0 EXCEPT !.err = "EINVAL"], st |-> Gc(Each(st, DOMAIN st.ino[r.id].ent)), kf |-> "KF32",
                    inv |-> "ok", skip |-> FALSE, cons |-> <<>>, x |-> x]}
             ELSE {}
